@@ -14,3 +14,18 @@ claim("C14",
       "Decides for every path of every registered web.Handler that Manager results are dereferenced only where non-nil (so a missing message cannot panic a handler), that storage.ErrNotExist never surfaces as 500 or as success without 404, that each client request matches a registered route with the body and JSON field the handler requires, that handlers address mailboxes through MailboxForAddress, and that JSON responses set every model field from the like-named metadata field. Does not decide equality of returned data or URL escaping.",
       "Trusts go/ssa and the VTA/CHA resolution of interface calls to all module implementers; same assumptions as C07.",
       "DESIGN.md section 4, C14")
+claim("C08",
+      "writer-set classification of the mailbox container, CFG must-pass-through (reach-avoid with nothing-removed edge filter), value-origin tracing; enforcer loop shape",
+      "Decides that every writer of mem.mbox.messages is classified, that every removal outside the enforcer reaches enforcerRemove of each removed message on all paths and the insert reaches enforcerDeliver, that the enforcer is push-back/evict-front with a strict `curSize > maxSize` guard and a subtraction paired with every effective list removal, and that cap eviction is oldest-first with the relation matching its position relative to the insert in both stores. These are necessary for 'accounting never drifts' and 'oldest first'; numeric bounds over histories are not decided.",
+      "Trusts go/ssa, container/list semantics, and that the enforcer goroutine is started once.",
+      "DESIGN.md section 4, C08")
+claim("C09",
+      "lock-held path analysis (reach-avoid between acquire/release incl. deferred releases), guarded-by field rule, closure-mode table for withMailbox, goroutine-confinement of post-publication fields, call-graph reach under lock",
+      "Decides the lock discipline of both stores for every path: guarded-by for Store.boxes and mem.mbox fields, the verified shape of withMailbox, no blocking operation or lock re-acquisition reachable under a lock, every file.Store method operating on its mbox under the bucket lock in the required mode with release on all exits, visitors called lock-free, post-publication Message fields atomic/confined/locked, and the enforcer's list element checked for nil. Linearizability and general race freedom are not decided.",
+      "Trusts go/ssa, the VTA/CHA call graph for reach-under-lock, sync.Mutex/RWMutex semantics.",
+      "DESIGN.md section 4, C09")
+claim("C16",
+      "writer-set classification of both mailbox containers, must-pass-through pairing with value-origin tracing, emitter who-may-call, goroutine-per-event detection in the generic broker instantiations",
+      "Decides that every removal site of either back-end is paired on all paths with AfterMessageDeleted.Emit of the removed message (directly or in every caller), that Deliver emits AfterMessageStored carrying the AddMessage id after every successful store and nothing else emits it, and that the async broker does not spawn a goroutine per event (currently a recorded known finding). Exactly-once at run time and cross-broker ordering are not decided.",
+      "Trusts go/ssa; the generic broker is analysed through its instantiations.",
+      "DESIGN.md section 4, C16")
